@@ -86,8 +86,9 @@ ApplyLine(d, raw) ==
       [] c[1] = "sum"  -> SumLine(d, c[2], c[3], c[4])
       [] OTHER -> d
 
-RECURSIVE FoldLines(_, _, _)
-FoldLines(ls, i, d) == IF i > Len(ls) THEN d ELSE FoldLines(ls, i + 1, ApplyLine(d, ls[i]))
+FoldLines(ls, i0, d0) == FoldL(LAMBDA d, l : ApplyLine(d, l), d0, SubSeq(ls, i0, Len(ls)))
+RECURSIVE FoldLinesRef(_, _, _)
+FoldLinesRef(ls, i, d) == IF i > Len(ls) THEN d ELSE FoldLinesRef(ls, i + 1, ApplyLine(d, ls[i]))
 FromBytes(t) == FoldLines(SplitOn(t, NL), 1, EmptyDI)
 Judged(t) == \A l \in RangeOf(SplitOn(t, NL)) : LineClass(l)[1] # "unjudged"
 
